@@ -144,7 +144,7 @@ func c14run(idx int) run.Result {
 	nClients := 2 + r.Intn(31)
 	lifecycle := r.Chance(1, 2) || idx%6 == 5 // rounds whose clients rewrite requirepass always restart: Start re-registers the password
 	password := idx%3 == 2                    // a third of the rounds require a password: AUTH runs the authenticators concurrently
-	res.Classes = []string{fmt.Sprintf("lifecycle=%v", lifecycle), fmt.Sprintf("password=%v", password), fmt.Sprintf("tls-port=%v", tlsPort != 0), fmt.Sprintf("clients-rewrite-requirepass=%v", realParams)}
+	res.Classes = []string{fmt.Sprintf("lifecycle=%v", lifecycle), fmt.Sprintf("password=%v", password), fmt.Sprintf("tls-port=%v", tlsPort != 0), fmt.Sprintf("lifecycle-goroutines=%d", map[bool]int{false: 0, true: 1}[lifecycle]+map[bool]int{false: 0, true: 1}[lifecycle && idx%4 == 3]), fmt.Sprintf("clients-rewrite-requirepass=%v", realParams)}
 	res.Key = gen.Hash64([]byte(fmt.Sprint(idx, nClients, lifecycle)))
 	res.NonTrivial = true
 	var exchanges, dials, dialErrs, tlsDials int64
@@ -251,6 +251,12 @@ func c14run(idx int) run.Result {
 			}
 			for _, c := range srv.Conns() {
 				srv.ConnByUUID(c.UUID())
+				// what an application does with the registry: look at the state of the connections
+				c.Database()
+				c.IsAuthrized()
+				c.UserName()
+				c.Password()
+				c.IsTLSConnection()
 			}
 			srv.ConfigString("verif-shared")
 			srv.ConfigPort()
@@ -261,11 +267,19 @@ func c14run(idx int) run.Result {
 	}()
 	// lifecycle calls while clients are active
 	var lcErrs []string
+	var lcMu sync.Mutex
+	lifecyclers := 0
 	if lifecycle {
+		lifecyclers = 1
+		if idx%4 == 3 {
+			lifecyclers = 2 // two parts of the application restart the server at the same time
+		}
+	}
+	for lc := 0; lc < lifecyclers; lc++ {
 		wg.Add(1)
-		go func() {
+		go func(lc int) {
 			defer wg.Done()
-			lr := rng.New(c14.seed, rng.Str("C14l"), uint64(idx))
+			lr := rng.New(c14.seed, rng.Str("C14l"), uint64(idx), uint64(lc))
 			calls := 3
 			if realParams {
 				calls = 8
@@ -281,14 +295,16 @@ func c14run(idx int) run.Result {
 					}
 				}
 				if err != nil {
+					lcMu.Lock()
 					lcErrs = append(lcErrs, err.Error())
+					lcMu.Unlock()
 					// the port may be briefly unavailable; try to come back
 					for k := 0; k < 50 && srv.Start() != nil; k++ {
 						time.Sleep(2 * time.Millisecond)
 					}
 				}
 			}
-		}()
+		}(lc)
 	}
 	done := make(chan struct{})
 	go func() { wg.Wait(); close(done) }()
@@ -320,7 +336,7 @@ func init() {
 	run.Register(&run.Prop{
 		ID: "C14", Level: "exploration",
 		Rule: func(tier string) string {
-			return "case = one workload round executed in a child built with the Go race detector (GORACE halt_on_error=0; the parent parses every 'WARNING: DATA RACE' block from the child's stderr and does not trust exit codes): a server with a mutex-guarded reference store as handler on a real loopback listener (every second round also a TLS listener, a third of the connections going through it); 2..32 TCP clients with connection churn, every command family, CONFIG SET/GET on shared and private keys (and, in every sixth round, CONFIG SET/GET of requirepass and CONFIG GET * from the clients), SELECT, AUTH with right and wrong passwords (a third of the rounds require a password), and endings by close, RST, half-close and mid-request cut; two goroutines serving scripted connections through hook H1; a control goroutine enumerating Conns()/ConnByUUID and reading configuration; in half of the rounds a goroutine calling Restart or Stop+Start three times while clients are active. Oracle: a report counts iff the innermost non-runtime frame of either access stack is in github.com/cybergarage/go-redis/redis[/...]; reports are reduced to an unordered pair of access functions (line numbers stripped, closures normalised) and de-duplicated; a child dying with 'fatal error: concurrent map ...' is a violation. Self-check: a planted harness-side race must be reported in every run (detector active). distinct = round index (every round is a different seeded workload and schedule)"
+			return "case = one workload round executed in a child built with the Go race detector (GORACE halt_on_error=0; the parent parses every 'WARNING: DATA RACE' block from the child's stderr and does not trust exit codes): a server with a mutex-guarded reference store as handler on a real loopback listener (every second round also a TLS listener, a third of the connections going through it); 2..32 TCP clients with connection churn, every command family, CONFIG SET/GET on shared and private keys (and, in every sixth round, CONFIG SET/GET of requirepass and CONFIG GET * from the clients), SELECT, AUTH with right and wrong passwords (a third of the rounds require a password), and endings by close, RST, half-close and mid-request cut; two goroutines serving scripted connections through hook H1; a control goroutine enumerating Conns()/ConnByUUID, reading each registered connection's database, authorization, user name and password, and reading configuration; in half of the rounds a goroutine (in a quarter of them two goroutines at once) calling Restart or Stop+Start three to eight times while clients are active. Oracle: a report counts iff the innermost non-runtime frame of either access stack is in github.com/cybergarage/go-redis/redis[/...]; reports are reduced to an unordered pair of access functions (line numbers stripped, closures normalised) and de-duplicated; a child dying with 'fatal error: concurrent map ...' is a violation. Self-check: a planted harness-side race must be reported in every run (detector active). distinct = round index (every round is a different seeded workload and schedule)"
 		},
 		Assumptions: []string{"the race detector only reports races on accesses that executed and were unordered in that run: a clean run is not race freedom"},
 		Setup: func(tier string, seed uint64) int {
